@@ -484,7 +484,21 @@ func runC15_5(c *core.Ctx) {
 		}
 		return true
 	})
-	if nObj == nil || minObj == nil {
+	isCountOfV := func(e ast.Expr) bool {
+		if nObj != nil && flow.ObjOf(f.Info, e) == nObj {
+			return true
+		}
+		call, ok := ast.Unparen(e).(*ast.CallExpr)
+		return ok && flow.IsCall(f.Info, call, count) && flow.ObjOf(f.Info, flow.Recv(call)) == vObj && vObj != nil
+	}
+	evaluates := nObj != nil
+	ast.Inspect(rng.Body, func(n ast.Node) bool {
+		if e, ok := n.(ast.Expr); ok && isCountOfV(e) {
+			evaluates = true
+		}
+		return true
+	})
+	if !evaluates || minObj == nil {
 		c.Violate(f.Name, "count of the examined loop", rng.Pos(), "the loop body does not evaluate countConn() of the range element")
 		return
 	}
@@ -492,7 +506,7 @@ func runC15_5(c *core.Ctx) {
 	p.Edge = func(e *flow.Edge, in uint64) uint64 {
 		if e.Cond != nil && e.Tag == nil {
 			if x, y, op, ok := flow.Cmp(e.Cond); ok {
-				lt := (op == token.LSS && flow.ObjOf(f.Info, x) == nObj && flow.ObjOf(f.Info, y) == minObj) || (op == token.GTR && flow.ObjOf(f.Info, y) == nObj && flow.ObjOf(f.Info, x) == minObj)
+				lt := (op == token.LSS && isCountOfV(x) && flow.ObjOf(f.Info, y) == minObj) || (op == token.GTR && isCountOfV(y) && flow.ObjOf(f.Info, x) == minObj)
 				if lt && e.Sense {
 					in |= fLess
 				}
@@ -518,7 +532,7 @@ func runC15_5(c *core.Ctx) {
 				setEl = setEl || good
 			}
 			if good && o == minObj {
-				good = flow.ObjOf(f.Info, as.Rhs[k]) == nObj
+				good = isCountOfV(as.Rhs[k])
 				setMin = setMin || good
 			}
 			c.Check(good, f.Name, "update of "+o.Name(), as.Pos(), "replaced only by a strictly less loaded loop, with its count",
